@@ -293,3 +293,6 @@ def _u5b(led, rid, ctx):
     run_rule(led, "S10", "contains / remove / equality / disequality on a view are guarded by the divisibility test (shared with C12-V1d)", _C12.v1_divis, ctx)
     run_rule(led, "S11", "Assignments::evaluate_predicate is exact (shared with C02-U10)", predrules.evaluate_exact, ctx)
     run_rule(led, "S12", "Predicate negation is the exact complement (shared with C02-U9)", predrules.negation_exact, ctx)
+    from . import watchrules
+    run_rule(led, "S13", "WAKE: each watcher loop of the nogood propagator looks at exactly the watchers whose predicate became true (decided on all old/new domain pairs of a 5-value universe)", watchrules.wake, ctx)
+    run_rule(led, "S14", "READD: loops that copy nogood watchers back run to the number of watchers", watchrules.readd, ctx)
